@@ -61,6 +61,8 @@ def ExpMono (d : Def) (w : World) (vp : VP) : Prop :=
 /-- the Go map iteration order of a `pollB` event is a permutation of the response -/
 def PermOK : Ev → Prop
   | .pollB perm => ∀ l, (perm l).Perm l
+  | .dpollStart => False        -- overlapping polls of one client are outside the proved theorems (see Props: witnesses)
+  | .dpollFinish _ _ => False
   | _ => True
 
 /-- side conditions on an event in world `w`: offered presentations come from `K` and respect `ExpMono`; the
@@ -68,6 +70,8 @@ def PermOK : Ev → Prop
 def EvOK (K : VP → Prop) (d : Def) (w : World) : Ev → Prop
   | .register vp => K vp ∧ ExpMono d w vp
   | .pollB perm => ∀ l, (perm l).Perm l
+  | .dpollStart => False        -- one poller per client: overlapping polls are not admissible here (Props: witnesses)
+  | .dpollFinish _ _ => False
   | _ => True
 
 /-- worlds reachable from two empty nodes by any admissible history -/
